@@ -872,8 +872,112 @@ def normalize_package(trees, known=None, passes=None):
         inl = Inliner(trees, known)
         stats["inline"] = inl.run()
     for mn, t in trees.items():
+        if on(7):
+            canon_flow(t)
         if on(6):
             for q, fn, cls, func in qualnames(t, mn):
                 explain_vars(fn)
+        if on(7):
+            canon_flow(t)
         ast.fix_missing_locations(t)
     return stats
+
+
+# ----------------------------------------------------------------------
+# N7  canonical control flow
+# ----------------------------------------------------------------------
+
+def _exits(body):
+    """does every path through the statement list leave the enclosing block (return / raise / continue / break)"""
+    if not body:
+        return False
+    last = body[-1]
+    if isinstance(last, (ast.Return, ast.Raise, ast.Continue, ast.Break)):
+        return True
+    if isinstance(last, ast.If):
+        return _exits(last.body) and _exits(last.orelse)
+    return False
+
+
+def _negate(test):
+    if isinstance(test, ast.UnaryOp) and isinstance(test.op, ast.Not):
+        return test.operand
+    if isinstance(test, ast.Compare) and len(test.ops) == 1:
+        inv = {ast.Is: ast.IsNot, ast.IsNot: ast.Is, ast.In: ast.NotIn, ast.NotIn: ast.In, ast.Eq: ast.NotEq, ast.NotEq: ast.Eq}
+        t = type(test.ops[0])
+        if t in inv:
+            return ast.copy_location(ast.Compare(left=test.left, ops=[inv[t]()], comparators=test.comparators), test)
+    return ast.copy_location(ast.UnaryOp(op=ast.Not(), operand=test), test)
+
+
+def _is_wild(s):
+    return isinstance(s, ast.Expr) and isinstance(s.value, ast.Constant) and s.value.value is Ellipsis
+
+
+def canon_flow_list(stmts, pattern=False):
+    """guard-clause form: an `else` after a branch that always leaves the block is flattened; the leaving branch comes first;
+    `if not c: A else: B` (neither leaving) becomes `if c: B else: A`; if/else assigning one target becomes a conditional expression"""
+    out = []
+    for s in stmts:
+        for f in ("body", "orelse", "finalbody"):
+            v = getattr(s, f, None)
+            if isinstance(v, list) and v and isinstance(v[0], ast.stmt) and not isinstance(s, (ast.FunctionDef, ast.AsyncFunctionDef, ast.ClassDef)):
+                setattr(s, f, canon_flow_list(v, pattern))
+        if isinstance(s, ast.Try):
+            for h in s.handlers:
+                h.body = canon_flow_list(h.body, pattern)
+        if isinstance(s, ast.If) and s.orelse:
+            wild = pattern and (any(_is_wild(x) for x in s.body) or any(_is_wild(x) for x in s.orelse))
+            if not wild:
+                b_exit, o_exit = _exits(s.body), _exits(s.orelse)
+                if b_exit:
+                    rest = s.orelse
+                    s.orelse = []
+                    out.append(s)
+                    out.extend(rest)
+                    continue
+                if o_exit:
+                    s.test = _negate(s.test)
+                    rest = s.body
+                    s.body, s.orelse = s.orelse, []
+                    out.append(s)
+                    out.extend(rest)
+                    continue
+                # x = a / x = b  ->  x = a if c else b
+                if len(s.body) == 1 and len(s.orelse) == 1 and isinstance(s.body[0], ast.Assign) and isinstance(s.orelse[0], ast.Assign) and len(s.body[0].targets) == 1 and len(s.orelse[0].targets) == 1 and ast.dump(s.body[0].targets[0]) == ast.dump(s.orelse[0].targets[0]):
+                    new = ast.Assign(targets=s.body[0].targets, value=ast.IfExp(test=s.test, body=s.body[0].value, orelse=s.orelse[0].value))
+                    out.append(ast.fix_missing_locations(ast.copy_location(new, s)))
+                    continue
+                if isinstance(s.test, ast.UnaryOp) and isinstance(s.test.op, ast.Not) and not (len(s.orelse) == 1 and isinstance(s.orelse[0], ast.If)):
+                    s.test = s.test.operand
+                    s.body, s.orelse = s.orelse, s.body
+        out.append(s)
+    return out
+
+
+class _Compare(ast.NodeTransformer):
+    """a < b < c  ->  a < b and b < c (when b is a plain name / constant / attribute: evaluated twice without effect)"""
+
+    def visit_Compare(self, node):
+        self.generic_visit(node)
+        if len(node.ops) > 1 and all(_simple_arg(c) for c in node.comparators[:-1]):
+            parts = []
+            left = node.left
+            for op, right in zip(node.ops, node.comparators):
+                parts.append(ast.Compare(left=left, ops=[op], comparators=[right]))
+                left = right
+            return ast.fix_missing_locations(ast.copy_location(ast.BoolOp(op=ast.And(), values=parts), node))
+        return node
+
+
+def canon_flow(tree, pattern=False):
+    _Compare().visit(tree)
+    for n in ast.walk(tree):
+        for f in ("body", "orelse", "finalbody"):
+            pass
+    if isinstance(tree, ast.Module):
+        tree.body = canon_flow_list(tree.body, pattern)
+    for n in ast.walk(tree):
+        if isinstance(n, (ast.FunctionDef, ast.AsyncFunctionDef, ast.ClassDef)):
+            n.body = canon_flow_list(n.body, pattern)
+    return tree
